@@ -35,7 +35,8 @@ CHECK = {
         "volumes the oracle scan does not find (thinner than the scan lattice and not delimited by "
         "axis-aligned/centred surfaces of their own universe) get no root of their own",
     ],
-    "bounds": {"zoo_added": "g6 (volumes of the form A & (B | C): ball caps, framed bars) and rectangular arrays with unequal cell counts 5x2x1, 2x5x1, 1x2x6 (cells 1 x 0.75 x 1.25 with a ball inside)",
+    "bounds": {"zoo_added": "g6 (volumes of the form A & (B | C): ball caps, framed bars), g7 (x- and y-aligned cylinders and cones: surface types cx, cy, cxc, cyc, kx, ky) and rectangular arrays with unequal cell counts 5x2x1, 2x5x1, 1x2x6 (cells 1 x 0.75 x 1.25 with a ball inside; 2x5x1 and 1x2x6 with grid origin (-1.5, 0.25, -2) and alternating cell widths w, 1.5 w); part ops also visits g6, g7 and ra2x5x1",
+               "not_covered": "rays exactly through edges / corners (exact distance ties): the dyadic-start x exact-diagonal family is opt-in only (VERIF_C03_DYADIC=1), see harness comment",
                "quick": {"ray_lattice": 4, "init_lattice": 15, "scan_lattice": 17, "ops_depth": 6,
                          "ops_setdir": 2, "ops_node_cap": 400000, "ops_chain_roots_per_geometry": 10},
                "thorough": {"ray_lattice": 7, "init_lattice": 25, "scan_lattice": 25, "ops_depth": 7,
